@@ -145,11 +145,45 @@ def run(rep, tier, root=None):
     # ---------------------------------------------------------------- O2
     res_assign = _stmt_containing(mp.node, pc)
     res_name = norm_text(res_assign.targets[0]) if isinstance(res_assign, ast.Assign) else None
-    args_name = norm_text(pc.args[1]) if len(pc.args) > 1 else None
+    sub = pc.args[1] if len(pc.args) > 1 else None
+    P = None
+    args_name = None
+    g = _gather(sub)
+    if isinstance(sub, ast.Name):
+        args_name = sub.id
+    elif g is not None:
+        args_name, P = g
+    # the list that is consumed positionally: the results themselves, or a re-indexing of them
+    Q = None
+    consumed = res_name
+    if res_name is not None:
+        for n in ast.walk(mp.node):
+            if isinstance(n, ast.Assign) and n is not res_assign:
+                g2 = _gather(n.value)
+                if g2 is not None and g2[0] == res_name:
+                    consumed, Q = norm_text(n.targets[0]), g2[1]
+    if P is not None or Q is not None:
+        defs = {norm_text(n.targets[0]): norm_text(n.value) for n in ast.walk(mp.node) if isinstance(n, ast.Assign) and len(n.targets) == 1}
+        qdef = defs.get(Q, Q) if Q else None
+        inverse_ok = Q is not None and P is not None and qdef is not None and \
+            qdef.replace(" ", "") in ("numpy.argsort(%s)" % P, "numpy.argsort(%s,kind='stable')" % P, "%s.argsort()" % P)
+        if inverse_ok:
+            rep.ok("O2.dispatch-permutation", mp.fq + ": results are scattered back with the inverse of the dispatch permutation")
+        elif P is not None and Q is None:
+            rep.violation("O2.dispatch-permutation", mp.fq + ": tasks are submitted in order `%s` but results are consumed in loop order" % P,
+                          "the argument list is re-ordered by `%s` before pool.map, and the results (which come back in *that* order) are "
+                          "consumed positionally as if they were in loop order" % P, mp.where(pc))
+        elif P is not None and Q == P:
+            rep.violation("O2.dispatch-permutation", mp.fq + ": `%s` applied to the results again instead of its inverse" % P,
+                          "tasks are submitted as [args[n] for n in %s], so result k belongs to pair %s[k]; [results[n] for n in %s] applies "
+                          "the same permutation a second time, which restores loop order only if the permutation is its own inverse "
+                          "(e.g. equal sensors); other layouts hand a block the result of a different sensor pair" % (P, P, P), mp.where(pc))
+        else:
+            rep.unknown("O2.dispatch-permutation", mp.fq, "results are re-indexed (%s / %s) in a way the rule cannot relate to the dispatch order" % (P, Q), mp.where(pc))
     appends = [n for n in ast.walk(mp.node) if isinstance(n, ast.Call) and isinstance(n.func, ast.Attribute)
                and n.func.attr == "append" and norm_text(n.func.value) == args_name]
-    consumers = [n for n in ast.walk(mp.node) if isinstance(n, ast.Subscript) and norm_text(n.value) == res_name
-                 and isinstance(n.ctx, ast.Load)]
+    consumers = [n for n in ast.walk(mp.node) if isinstance(n, ast.Subscript) and norm_text(n.value) == consumed
+                 and isinstance(n.ctx, ast.Load) and not _inside_listcomp(mp.node, n)]
     if res_name is None or len(appends) != 1 or len(consumers) != 1:
         rep.unknown("O2.positional-consumption", mp.fq, "expected one producer append and one indexed read of the results (%d/%d)"
                     % (len(appends), len(consumers)), mp.where())
@@ -357,6 +391,22 @@ def run(rep, tier, root=None):
     rep.sample({"producer_loops": [header(l) for l in prod_loops], "consumer_loops": [header(l) for l in cons_loops],
                 "worker": worker.fq, "reachable_from_worker": [f.fq for f in reach]})
     rep.floor("C03 obligations", len(rep.obligations), 35)
+
+
+def _gather(node):
+    """[A[n] for n in P]  ->  (A, P) as source text"""
+    if isinstance(node, ast.ListComp) and len(node.generators) == 1 and not node.generators[0].ifs and \
+            isinstance(node.generators[0].target, ast.Name) and isinstance(node.elt, ast.Subscript) and \
+            isinstance(node.elt.slice, ast.Name) and node.elt.slice.id == node.generators[0].target.id:
+        return norm_text(node.elt.value), norm_text(node.generators[0].iter)
+    return None
+
+
+def _inside_listcomp(fnode, node):
+    for n in ast.walk(fnode):
+        if isinstance(n, ast.ListComp) and any(x is node for x in ast.walk(n)):
+            return True
+    return False
 
 
 def _rename_pair(body, stores, src_node):
